@@ -39,10 +39,14 @@ impl<T> InnerQueue<T> {
     }
 
     pub fn send(&self, t: T) -> Result<(), SendError<T>> {
+        #[cfg(may_verif)]
+        crate::verif::pt("mpmc.send.load_rx", crate::verif::addr(self), 0, 0);
         if self.rx_ports.load(Ordering::Acquire) == 0 {
             return Err(SendError(t));
         }
 
+        #[cfg(may_verif)]
+        crate::verif::pt("mpmc.send.push", crate::verif::addr(self), 0, 0);
         self.queue.push(t);
         self.sem.post();
         Ok(())
@@ -64,6 +68,8 @@ impl<T> InnerQueue<T> {
             }
         }
 
+        #[cfg(may_verif)]
+        crate::verif::pt("mpmc.recv.pop", crate::verif::addr(self), 0, 0);
         match self.queue.pop() {
             Some(data) => Ok(data),
             None => match self.tx_ports.load(Ordering::Acquire) {
@@ -75,12 +81,16 @@ impl<T> InnerQueue<T> {
 
     pub fn try_recv(&self) -> Result<T, TryRecvError> {
         if !self.sem.try_wait() {
+            #[cfg(may_verif)]
+            crate::verif::pt("mpmc.try.load_tx", crate::verif::addr(self), 0, 0);
             return match self.tx_ports.load(Ordering::Acquire) {
                 0 => Err(TryRecvError::Disconnected),
                 _ => Err(TryRecvError::Empty),
             };
         }
 
+        #[cfg(may_verif)]
+        crate::verif::pt("mpmc.try.pop", crate::verif::addr(self), 0, 0);
         match self.queue.pop() {
             Some(data) => Ok(data),
             None => match self.tx_ports.load(Ordering::Acquire) {
@@ -91,14 +101,20 @@ impl<T> InnerQueue<T> {
     }
 
     pub fn clone_tx(&self) {
+        #[cfg(may_verif)]
+        crate::verif::pt("mpmc.clone_tx.inc", crate::verif::addr(self), 0, 0);
         self.tx_ports.fetch_add(1, Ordering::SeqCst);
     }
 
     pub fn drop_tx(&self) {
+        #[cfg(may_verif)]
+        crate::verif::pt("mpmc.drop_tx.dec", crate::verif::addr(self), 0, 0);
         match self.tx_ports.fetch_sub(1, Ordering::SeqCst) {
             1 => {
                 // there is no tx port any more
                 // should tell all the waited rx to come back
+                #[cfg(may_verif)]
+                crate::verif::pt("mpmc.drop_tx.get", crate::verif::addr(self), 0, 0);
                 while self.sem.get_value() == 0 {
                     self.sem.post();
                 }
@@ -109,10 +125,14 @@ impl<T> InnerQueue<T> {
     }
 
     pub fn clone_rx(&self) {
+        #[cfg(may_verif)]
+        crate::verif::pt("mpmc.clone_rx.inc", crate::verif::addr(self), 0, 0);
         self.rx_ports.fetch_add(1, Ordering::SeqCst);
     }
 
     pub fn drop_rx(&self) {
+        #[cfg(may_verif)]
+        crate::verif::pt("mpmc.drop_rx.dec", crate::verif::addr(self), 0, 0);
         match self.rx_ports.fetch_sub(1, Ordering::SeqCst) {
             1 => {
                 // there is no receiver any more, clear the data
